@@ -1,4 +1,4 @@
-//@ unit u5b_recompute props C09 also C18
+//@ unit u5b_recompute props C09 C03 also C18
 // Unit U5b: the chained history digest (src/database/daily_log.rs, DailyLogsUpdate::compute).  "The daily log is a function of
 // the stored content, nothing else": whatever rows the recomputation query returns, the history digest written for a day is the
 // chain over the days of the SAME room and entity - started from the stored digest of the last clean day, or from the day's own
